@@ -468,6 +468,101 @@ def step (cfg : Cfg) (env : Env) (now : Int) (h : Hub) : Op → Hub × Reply
         ({ h with sessions := h.sessions.filter (fun x => x.sid ≠ s.sid),
                   conns := h.conns.filter (fun q => q.1 ≠ c) }, .bye)
 
+/-! ## critical sections of the hello path
+
+The functions above are sequential: "look the session up, compare the id, attach the connection"
+is one step of `helloResume`.  The source does the same only while these statements sit inside one
+critical section of `Hub.mu`.  `Generated.Auth.resumePaths` lists, per control-flow path of the resume
+branch, the critical sections with the events inside them; `resumeShape` reads off which of the two
+shapes below the source has, and `resumeConc` is the resume branch run against an adversary that may
+change the hub wherever the mutex is not held. -/
+
+abbrev LockPath := List (String × List String)
+
+def LockPath.has (p : LockPath) (e : String) : Bool := p.any (fun s => s.2.contains e)
+
+/-- no section is still held when the path returns (`W!` / `R!` mark a leaked lock) -/
+def LockPath.released (p : LockPath) : Bool := p.all (fun s => s.1 == "W" || s.1 == "R" || s.1 == "-")
+
+/-- `e` does not occur before section `s` nor inside it -/
+def LockPath.onlyAfter (p : LockPath) (s : String × List String) (e : String) : Bool :=
+  !s.2.contains e && !(p.takeWhile (fun t => t != s)).any (fun t => t.2.contains e)
+
+def resumeLookupEvents : List String := ["lookup:sessions", "check:privateId", "check:clientSession", "check:connected"]
+def resumeAttachEvents : List String := ["attach:SetClient", "delete:expiredSessions", "store:clients", "delete:expectHelloClients"]
+
+/-- the sections of a path that look the session up, check it or attach the connection -/
+def resumeCore (p : LockPath) : LockPath :=
+  p.filter (fun s => (resumeLookupEvents ++ resumeAttachEvents).any s.2.contains)
+
+inductive ResumeShape where
+  /-- lookup, checks and attach inside one critical section held for writing, the reply after it -/
+  | one
+  /-- the connection is attached in a later section than the one that looked the session up -/
+  | split
+  /-- not understood -/
+  | other
+  deriving DecidableEq, Repr
+
+/-- a path that attaches the connection or answers with a session -/
+def LockPath.resumes (p : LockPath) : Bool := p.has "reply:hello" || resumeAttachEvents.any p.has
+
+def pathShape (p : LockPath) : ResumeShape :=
+  match resumeCore p with
+  | [s] =>
+    if s.1 == "W" && (resumeLookupEvents ++ ["attach:SetClient"]).isSublist s.2 && resumeAttachEvents.all s.2.contains
+        && p.onlyAfter s "reply:hello" && p.has "reply:hello" then .one
+    else .other
+  | _ :: _ :: _ => if p.has "lookup:sessions" then .split else .other
+  | [] => .other
+
+/-- the shape of the resume branch: `one` if every path that attaches has it (and there is one),
+`split` as soon as one path attaches in a later section -/
+def resumeShapeOf (paths : List LockPath) : ResumeShape :=
+  let rs := (paths.filter (·.resumes)).map pathShape
+  if rs.contains .split then .split
+  else if rs.isEmpty || rs.contains .other || !paths.all (·.released) then .other
+  else .one
+
+def resumeShape : ResumeShape := resumeShapeOf resumePaths
+
+/-- The resume branch against an adversary: `mid` is whatever other connections, the housekeeping
+or the backend do to the hub between the section that looks the session up and the one that
+attaches the connection (nothing can happen inside a section).  Shape `one` has no such place. -/
+def resumeConc (shape : ResumeShape) (mid : Hub → Hub) (now : Int) (h : Hub) (c : Nat) (m : Hello) : Hub × Reply :=
+  match shape with
+  | .split =>
+    let k := h.tkey c
+    let r := Throttle.check h.thr now k "HelloResume"
+    if r.2 then ({ h with thr := r.1 }, .error (errCode "TooManyRequests"))
+    else if !m.resume.decodes then
+      ({ h with thr := (Throttle.throttle r.1 now k "HelloResume").1 }, .error (errCode "NoSuchSession"))
+    else
+      match m.resume.exact.bind (fun sid => h.sessions.find? (fun s => s.sid = sid)) with
+      | none => ({ h with thr := r.1 }, .error (errCode "NoSuchSession"))
+      | some s =>
+        let h' := mid { h with thr := r.1 }
+        ({ h' with sessions := h'.sessions.map (fun x => if x.sid = s.sid then { x with conn := some c } else x),
+                   conns := match s.conn with
+                     | some p => h'.conns.filter (fun q => q.1 ≠ p)
+                     | none => h'.conns },
+         .hello s.sid s.backend s.kind s.user)
+  | _ => helloResume now h c m
+
+/-- `Session.Close()` of session `sid` by the hub itself (expiry, kick): the session leaves the table,
+its connection — if it has one — stays open without session. -/
+def endSession (h : Hub) (sid : Nat) : Hub := { h with sessions := h.sessions.filter (fun x => x.sid ≠ sid) }
+
+/-- At rest after a hello with the resume id of session `sid` on connection `c` and the end of that session
+(`bye` on its connection `o`, or the hub closing it), in whichever order: the session is gone, `o` is closed,
+`c` is open without session; the throttle table has seen the resume's check. -/
+def raceRest (now : Int) (h : Hub) (c sid : Nat) (o : Option Nat) : Hub :=
+  let r := Throttle.check h.thr now (h.tkey c) "HelloResume"
+  let h1 := endSession { h with thr := r.1 } sid
+  match o with
+  | some p => { h1 with conns := h1.conns.filter (fun q => q.1 ≠ p) }
+  | none => h1
+
 def run (cfg : Cfg) (env : Env) (now : Int) (h : Hub) : List Op → Hub × List Reply
   | [] => (h, [])
   | op :: ops =>
